@@ -111,6 +111,11 @@ PROPS = {
                          'FramebufferTypeId::try_from', '*Tag::dst_len'])],
         k_quick=[], k_thorough=[],
     ),
+    'C06': dict(
+        v=[('u_mb2_builder', ['mb::Builder::*', 'EndTag::default', 'BootInformationHeader::new', 'TagHeader::new', 'TagType::from',
+                              'seqfold::lemma_*', 'MaybeDynSized::as_bytes', 'BytesRef::vbytes', 'lemma_mb2_layouts'])],
+        k_quick=[], k_thorough=[],
+    ),
     'C12': dict(
         v=[('u_hdr_builder', ['hb::Builder::build', 'hb::Builder::new', 'hb::Builder::*_tag', 'EndHeaderTag::new', 'Multiboot2BasicHeader::new',
                               'HeaderTagHeader::new', 'Multiboot2BasicHeader::calc_checksum', 'lemma_spec_checksum', 'seqfold::lemma_*',
